@@ -21,7 +21,7 @@ import (
 func init() {
 	Registry["C16"] = &Check{
 		Scenarios: c16Scenarios,
-		Rule: "complete grid: hop-by-hop and end-to-end ids from {0,1,2^31,2^32-1}^2 x all 256 command flag bytes x every (application, command) of the embedded dictionaries x result code {0 (none asked), 2001, 5012, 2^32-1} through Message.Answer; the state machine's success CEA, each failure CEA (5010, 5017, 5012) and DWA for the same id grid over an in-memory transport; the same requests arriving on SCTP streams {0,1,5,15} of the in-memory multistream backend (and on a stream-less transport), answered by a handler through Answer().WriteTo and by the state machine: the backend must record the answer on the request's stream, also when the answer to a request is written later, while a request from another stream is being handled (all 16 stream pairs), also when the first 1 or 2 write attempts of that answer fail with a temporary error and are retried (WriteToWithRetry); and two application goroutines answering requests of different streams concurrently (every schedule up to preemption bound 2, thorough 3).",
+		Rule: "complete grid: hop-by-hop and end-to-end ids from {0,1,2^31,2^32-1}^2 x all 256 command flag bytes x every (application, command) of the embedded dictionaries x result code {0 (none asked), 2001, 5012, 2^32-1} through Message.Answer; the state machine's success CEA, each failure CEA (5010, 5017, 5012) and DWA for the same id grid over an in-memory transport; the same requests arriving on SCTP streams {0,1,5,15} of the in-memory multistream backend (and on a stream-less transport), answered by a handler through Answer().WriteTo and by the state machine: the backend must record the answer on the request's stream, also when the answer to a request is written later, while a request from another stream is being handled (all 16 stream pairs), also when the first 1 or 2 write attempts of that answer fail with a temporary error and are retried (WriteToWithRetry); and two application goroutines answering requests of different streams concurrently (every schedule up to preemption bound 2, thorough 3), on an association attached with NewConn and on one accepted by a Server with ReadTimeout and WriteTimeout set.",
 		Assume: []string{"single default schedule per exchange", "in-memory SCTP backend (hook diam/sctp_verif.go)"},
 		QuickBudget: 120, ThoroughBudget: 900,
 	}
@@ -47,6 +47,7 @@ func c16Scenarios(tier string) []*Scenario {
 	}
 	for _, p := range [][2]uint16{{3, 5}, {0, 7}, {5, 0}} {
 		out = append(out, c16Concurrent(p[0], p[1], false, cb), c16Concurrent(p[0], p[1], true, cb))
+		out = append(out, c16ConcurrentOpt(p[0], p[1], false, true, cb))
 	}
 	return out
 }
@@ -398,6 +399,12 @@ func c16Streams(r *SeqResult) {
 var c16conc *vnet.SCTP
 
 func c16Concurrent(s1, s2 uint16, retry bool, bound int) *Scenario {
+	return c16ConcurrentOpt(s1, s2, retry, false, bound)
+}
+
+// withTimeouts: the association is accepted by a diam.Server with ReadTimeout and WriteTimeout set
+// (the deadline-arming write path) instead of being attached with diam.NewConn.
+func c16ConcurrentOpt(s1, s2 uint16, retry, withTimeouts bool, bound int) *Scenario {
 	body := func() {
 		be := vnet.NewSCTP("S")
 		c16conc = be
@@ -412,7 +419,12 @@ func c16Concurrent(s1, s2 uint16, retry bool, bound int) *Scenario {
 			})
 		})
 		msc := diam.NewSCTPConnBackend(be)
-		if _, err := diam.NewConn(msc, "peer", mux, dict.Default); err != nil {
+		if withTimeouts {
+			lis := vnet.NewListener()
+			lis.Offer(vnet.AcceptItem{NetConn: msc})
+			srv := &diam.Server{Handler: mux, Dict: dict.Default, ReadTimeout: time.Hour, WriteTimeout: time.Hour}
+			vs.GoNamed("serve", false, func() { srv.Serve(lis) })
+		} else if _, err := diam.NewConn(msc, "peer", mux, dict.Default); err != nil {
 			return
 		}
 		be.Deliver(s1, refcodec.EncodeMessage(refcodec.Header{Version: 1, Flags: 0x80, Code: 258, HbH: 1, E2E: 1}, []refcodec.Node{ident(264, "c")}))
@@ -449,5 +461,9 @@ func c16Concurrent(s1, s2 uint16, retry bool, bound int) *Scenario {
 		}
 		return fmt.Sprint(o)
 	}
-	return &Scenario{Name: fmt.Sprintf("streams/concurrent-answers/%d+%d/retry=%v", s1, s2, retry), Body: body, Check: check, Outcome: outcome, Bound: bound, Horizon: 5 * time.Second}
+	name := fmt.Sprintf("streams/concurrent-answers/%d+%d/retry=%v", s1, s2, retry)
+	if withTimeouts {
+		name += "/server-with-read-and-write-timeouts"
+	}
+	return &Scenario{Name: name, Body: body, Check: check, Outcome: outcome, Bound: bound, Horizon: 5 * time.Second}
 }
